@@ -1044,3 +1044,175 @@ Proof.
       rewrite (mci_all_at ra last Hall_a Hinc_a Hu) in M3. rewrite Ht in M3.
       apply M3; [exact Hterm|exact C1].
 Qed.
+
+(* --- the commit invariant along lists of responses, ticks and rounds --- *)
+
+(* the static facts about a leader of term T whose log ends at [last] with an entry of
+   its own term *)
+Definition LeadS (T last : N) (L : raft) : Prop :=
+  r_state L = Leader /\ r_term L = T /\ last_index (r_log L) = last /\
+  RaftLog.term (r_log L) last = Ok (SOk T) /\ incoming (conf_of L) <> [].
+
+Lemma term_same_ents lg lg' i : same_ents lg lg' -> RaftLog.term lg' i = RaftLog.term lg i.
+Proof. intros (A & B & _). unfold RaftLog.term, first_index, last_index. rewrite A, B. reflexivity. Qed.
+
+Lemma fr_LeadS T last r r' : fr r r' -> LeadS T last r -> LeadS T last r'.
+Proof.
+  intros (F1 & _ & F3 & F4 & _ & _ & F7) (S1 & S2 & S3 & S4 & S5).
+  split; [congruence|]. split; [congruence|].
+  split; [rewrite (last_index_same_ents _ _ F3); exact S3|].
+  split; [rewrite (term_same_ents _ _ _ F3); exact S4|]. rewrite F4. exact S5.
+Qed.
+
+(* a response of some follower to a leader of term T *)
+Definition resp_typed (T : N) (m : msg) : Prop :=
+  m_term m = T /\
+  (m_type m = MsgAppendResponse \/ (m_type m = MsgHeartbeatResponse /\ m_context m = [])).
+
+Lemma leader_step_fr T L m L' c :
+  T <> 0 -> r_state L = Leader -> r_term L = T -> resp_typed T m -> step L m = Ok (L', c) -> fr L L'.
+Proof.
+  intros HT Hs Ht (Hm & Hty) H.
+  destruct (step_leader_same_term T HT L m Hs Ht Hm) as [EA EH].
+  destruct Hty as [Hty|[Hty _]].
+  - rewrite (EA Hty) in H. inv_bind H. apply handle_append_response_fr in Hx.
+    assert (L' = x) by congruence. subst x. exact Hx.
+  - rewrite (EH Hty) in H. inv_bind H. apply handle_heartbeat_response_fr in Hx.
+    assert (L' = x) by congruence. subst x. exact Hx.
+Qed.
+
+Lemma steps_CommitInv T last : forall ms L L',
+  T <> 0 -> last <= u64_max -> Forall (resp_typed T) ms ->
+  LeadS T last L -> CommitInv last L -> steps L ms = Ok L' ->
+  LeadS T last L' /\ CommitInv last L' /\ committed (r_log L) <= committed (r_log L') /\
+  (forall id, ~ In id (map m_from ms) ->
+     option_map matched (get_pr L' id) = option_map matched (get_pr L id)).
+Proof.
+  induction ms as [|m t IH]; intros L L' HT Hu Hall HS HC H; cbn [steps] in H.
+  - assert (L' = L) by congruence. subst L'. split; [exact HS|]. split; [exact HC|]. split; [lia|]. auto.
+  - inv_bind H. destruct x as [L1 c1]. cbn [fst] in H.
+    pose proof (Forall_inv Hall) as Hm. pose proof (Forall_inv_tail Hall) as Ht.
+    pose proof HS as (S1 & S2 & S3 & S4 & S5). pose proof Hm as (Hm1 & Hm2).
+    pose proof (fr_LeadS _ _ _ _ (leader_step_fr T L m L1 c1 HT S1 S2 Hm Hx) HS) as HS1.
+    destruct (leader_step_CommitInv T last L m L1 c1 HT S1 S2 Hm1 Hm2 S3 Hu S4 S5 HC Hx) as [HC1 Hmono1].
+    destruct (IH L1 L' HT Hu Ht HS1 HC1 H) as (HS' & HC' & Hmono & Hoth).
+    split; [exact HS'|]. split; [exact HC'|]. split; [lia|].
+    intros id Hnin.
+    assert (Hn1 : id <> m_from m) by (intros E; apply Hnin; left; congruence).
+    assert (Hn2 : ~ In id (map m_from t)) by (intros E; apply Hnin; right; exact E).
+    rewrite (Hoth id Hn2).
+    destruct (leader_resp_cases T L m L1 c1 HT S1 S2 Hm1 Hm2 Hx)
+      as (_ & [(_ & Hsm)|(pg & pr2 & r1 & cmt & Hg & _ & Hoth1 & _ & _ & Hsm)]).
+    + apply Hsm.
+    + rewrite Hsm. rewrite get_pr_put_other by exact Hn1. reflexivity.
+Qed.
+
+(* --- the general frame of a response handled by a leader: log, progress map, queue --- *)
+
+Lemma send_append_to_lfr r to r' : send_append_to r to = Ok r' -> lfr r r'.
+Proof.
+  unfold send_append_to. intros H. destruct (get_pr r to); [|discriminate].
+  inv_bind H. destruct x as [[r1 p1] b]. inversion H; subst r'.
+  apply maybe_send_append_facts in Hx. destruct Hx as (A & _).
+  eapply lfr_trans; [apply msgs_only_lfr; exact A|apply put_pr_lfr].
+Qed.
+
+Lemma for_each_peer_lfr (g : raft -> N -> Res raft) :
+  (forall r id r', g r id = Ok r' -> lfr r r') ->
+  forall ids self r r', for_each_peer ids self g r = Ok r' -> lfr r r'.
+Proof.
+  intros Hg. induction ids as [|id rest IH]; intros self r r' H.
+  { assert (r' = r) by (cbn in H; congruence). subst r'. apply lfr_refl. }
+  cbn [for_each_peer] in H. destruct (id =? self). { eapply IH; eassumption. }
+  inv_bind H. eapply lfr_trans; [eapply Hg; eassumption|eapply IH; eassumption].
+Qed.
+
+Lemma bcast_append_lfr r r' : bcast_append r = Ok r' -> lfr r r'.
+Proof. unfold bcast_append. apply for_each_peer_lfr. apply send_append_to_lfr. Qed.
+
+Lemma send_append_aggressively_lfr r to r' : send_append_aggressively r to = Ok r' -> lfr r r'.
+Proof.
+  unfold send_append_aggressively. intros H. destruct (get_pr r to); [|discriminate].
+  inv_bind H. destruct x as [r1 p1]. inversion H; subst r'.
+  apply (send_append_aggressively_loop_matched _ _ to) in Hx. destruct Hx as [A _].
+  eapply lfr_trans; [apply msgs_only_lfr; exact A|apply put_pr_lfr].
+Qed.
+
+Lemma maybe_commit_lfr r r' b : maybe_commit r = Ok (r', b) -> lfr r r'.
+Proof.
+  unfold maybe_commit. intros H. inv_bind H. destruct x as [l' b'].
+  apply log_maybe_commit_same_ents in Hx.
+  assert (Hl : lfr r (r <| r_log := l' |>)) by (split; [destruct r; reflexivity|exact Hx]).
+  destruct b'.
+  - destruct (get_pr r (r_id r)); inversion H; subst r' b; [|exact Hl].
+    eapply lfr_trans; [exact Hl|apply put_pr_lfr].
+  - inversion H; subst r' b. exact Hl.
+Qed.
+
+Lemma ack_tail_lfr r m op r' : ack_tail r m op = Ok r' -> lfr r r'.
+Proof.
+  unfold ack_tail. intros H. inv_bind H. destruct x as [r1 cmt]. apply maybe_commit_lfr in Hx.
+  inv_bind H. inv_bind H.
+  assert (E1 : lfr r1 x).
+  { destruct cmt.
+    - destruct (should_bcast_commit r1); [apply bcast_append_lfr; exact Hx0|].
+      assert (x = r1) by congruence. subst x. apply lfr_refl.
+    - destruct op; [eapply send_append_to_lfr; exact Hx0|].
+      assert (x = r1) by congruence. subst x. apply lfr_refl. }
+  apply send_append_aggressively_lfr in Hx1.
+  assert (E3 : lfr x0 r').
+  { destruct (r_lead_transferee x0) as [t|]; [|assert (r' = x0) by congruence; subst r'; apply lfr_refl].
+    destruct (t =? m_from m); [|assert (r' = x0) by congruence; subst r'; apply lfr_refl].
+    destruct (get_pr x0 (m_from m)); [|discriminate].
+    destruct (_ =? _); [|assert (r' = x0) by congruence; subst r'; apply lfr_refl].
+    unfold send_timeout_now in H. apply send_msgs_only in H. apply msgs_only_lfr. exact H. }
+  eapply lfr_trans; [exact Hx|]. eapply lfr_trans; [exact E1|]. eapply lfr_trans; eassumption.
+Qed.
+
+Lemma leader_step_lfr T L m L' c :
+  T <> 0 -> r_state L = Leader -> r_term L = T -> resp_typed T m -> step L m = Ok (L', c) -> lfr L L'.
+Proof.
+  intros HT Hs Ht (Hm & Hty) H.
+  destruct (step_leader_same_term T HT L m Hs Ht Hm) as [EA EH].
+  destruct Hty as [Hty|[Hty Hctx]].
+  - rewrite (EA Hty) in H. inv_bind H. assert (x = L') by congruence. subst x. clear H.
+    destruct (get_pr L (m_from m)) as [pg|] eqn:Hgg.
+    2:{ unfold handle_append_response in Hx. inv_bind Hx. rewrite Hgg in Hx.
+        assert (L' = L) by congruence. subst L'. apply lfr_refl. }
+    destruct (m_reject m) eqn:Hrj.
+    + rewrite (append_reject_eq L m pg Hgg Hrj) in Hx. inv_bind Hx.
+      destruct (maybe_decr_to _ _ _ _) as [p1 dec]. destruct dec.
+      * eapply lfr_trans; [apply put_pr_lfr|eapply send_append_to_lfr; exact Hx].
+      * assert (L' = put_pr L (m_from m) p1) by congruence. subst L'. apply put_pr_lfr.
+    + rewrite (append_ack_eq L m pg Hgg Hrj) in Hx. cbv zeta in Hx.
+      destruct (matched pg <? m_index m).
+      * inv_bind Hx. eapply lfr_trans; [apply put_pr_lfr|eapply ack_tail_lfr; exact Hx].
+      * inversion Hx. apply put_pr_lfr.
+  - rewrite (EH Hty) in H. inv_bind H. assert (x = L') by congruence. subst x. clear H.
+    rewrite heartbeat_response_eq in Hx.
+    destruct (get_pr L (m_from m)) as [pg|]; [|assert (L' = L) by congruence; subst L'; apply lfr_refl].
+    inv_bind Hx. inv_bind Hx.
+    assert (Htail : hb_ro_tail x0 m = Ok x0).
+    { unfold hb_ro_tail. rewrite Hctx. rewrite orb_true_r. reflexivity. }
+    rewrite Htail in Hx. assert (x0 = L') by congruence. subst x0. clear Hx.
+    match goal with Hs : (if hb_wants_send _ _ then _ else _) = Ok _ |- _ => rename Hs into Hsd end.
+    destruct (hb_wants_send L x).
+    + inv_bind Hsd. destruct x0 as [[r1 p1] sent]. inversion Hsd; subst L'.
+      match goal with Hs : maybe_send_append _ _ _ _ = Ok _ |- _ =>
+        apply maybe_send_append_facts in Hs; destruct Hs as (A & _) end.
+      eapply lfr_trans; [apply msgs_only_lfr; exact A|apply put_pr_lfr].
+    + inversion Hsd. apply put_pr_lfr.
+Qed.
+
+Lemma steps_lfr T : forall ms L L',
+  T <> 0 -> r_state L = Leader -> r_term L = T -> Forall (resp_typed T) ms ->
+  steps L ms = Ok L' -> lfr L L'.
+Proof.
+  induction ms as [|m t IH]; intros L L' HT Hs Ht Hall H; cbn [steps] in H.
+  - assert (L' = L) by congruence. subst L'. apply lfr_refl.
+  - inv_bind H. destruct x as [L1 c1]. cbn [fst] in H.
+    pose proof (leader_step_lfr T L m L1 c1 HT Hs Ht (Forall_inv Hall) Hx) as F1.
+    pose proof (leader_step_fr T L m L1 c1 HT Hs Ht (Forall_inv Hall) Hx) as (G1 & _ & _ & _ & _ & _ & G7).
+    eapply lfr_trans; [exact F1|]. apply IH; try assumption; try congruence.
+    apply (Forall_inv_tail Hall).
+Qed.
